@@ -161,6 +161,13 @@ def r3_label_lengths(ctx, rule):
                 and isinstance(const(t.comparators[0]), str) and len(cur.body) == 1 and isinstance(cur.body[0], ast.AugAssign) \
                 and isinstance(cur.body[0].op, ast.Add) and U(cur.body[0].target) == 'total_length':
             measured[const(t.comparators[0])] = U(cur.body[0].value)
+        elif isinstance(t, ast.Compare) and len(t.ops) == 1 and isinstance(t.ops[0], ast.In) and U(t.left) == '%s[0]' % x \
+                and isinstance(t.comparators[0], (ast.Tuple, ast.List, ast.Set, ast.Constant)) and len(cur.body) == 1 \
+                and isinstance(cur.body[0], ast.AugAssign) and isinstance(cur.body[0].op, ast.Add) and U(cur.body[0].target) == 'total_length':
+            letters = [const(e) for e in t.comparators[0].elts] if not isinstance(t.comparators[0], ast.Constant) else list(t.comparators[0].value)
+            for le in letters:
+                if isinstance(le, str) and len(le) == 1:
+                    measured[le] = U(cur.body[0].value)
         else:
             ctx.unk(rule, q, 'label measurement is not an `if x[0] == <letter>: total_length += <expr>` chain (%s)' % U(t)[:60])
             return
@@ -234,7 +241,7 @@ def r4_reemission(ctx, rule):
         ctx.ok(rule, eq, 'the edited list is written back completely')
     else:
         ctx.bad(rule, eq, 'write-back shape', 'the whole edited list must be written', None, efn)
-    ctx.floor(rule, 'edit_rules.py', n, 5, 're-emission sites')
+    ctx.floor(rule, 'edit_rules.py', n, 3, 're-emission sites')
 
 
 def r5_filter_kernels(ctx, rule):
